@@ -167,7 +167,7 @@ func init() {
 			{"GroupInterval", []LitM{L("(p0.GroupInterval == nil)", false)}, "p0.GroupInterval"},
 			{"RepeatInterval", []LitM{L("(p0.RepeatInterval == nil)", false)}, "p0.RepeatInterval"},
 			{"Labels", []LitM{L("(len(p0.Labels) == 0)", false), L("(p0.Labels == nil)", false)}, ""},
-			{"GroupBy", []LitM{L("(p0.GroupBy == nil)", false), L("(len(p0.GroupBy) == 0)", false)}, ""},
+			{"GroupBy", []LitM{L("(p0.GroupBy == nil)", false)}, ""}, // not len()==0: an explicit empty group_by is an override (config keeps it non-nil)
 			{"GroupByAll", []LitM{L("(p0.GroupBy == nil)", false), L("p0.GroupByAll", true)}, ""},
 		}
 		for _, f := range flds {
@@ -200,7 +200,7 @@ func init() {
 				}
 				if v == "false" {
 					okClear = true
-					o.Guarded(st, "gba-clear-guard", "clearing group_by_all", L("(p0.GroupBy == nil)", false), L("(len(p0.GroupBy) == 0)", false))
+					o.Guarded(st, "gba-clear-guard", "clearing group_by_all", L("(p0.GroupBy == nil)", false))
 				}
 			}
 			o.Check(okSet, "gba-set", "group_by: ['...'] on a child is never applied", nil)
